@@ -195,7 +195,7 @@ def run(tier):
     from .. import quoting
     quoting.run(ck, "C01", tier, loads, impl.dumper)
     # every number lexeme over the alphabet of spec/Numbers.tla in every kind of numeric slot
-    from .. import numbers
+    from .. import numlex as numbers
     numbers.run(ck, "C01", tier, loads, dumps)
     # every "#..." string over the alphabet of spec/HexLex.tla (hex colour or plain string), both quotes in and out
     from .. import hexlex
